@@ -831,6 +831,15 @@ func build(tier string) []explore.Scenario {
 			out = append(out, concScenario([]op{ops[i], ops[j]}, 1, true, []int{0, 1, -1}))
 		}
 	}
+	// the namespace's state is built lazily by the first operation that names it: two first operations race for it
+	// (no update here: building its object would read the state and so be the first operation itself)
+	first := []int{0, 1, 9, 11, 12}
+	for a, i := range first {
+		for _, j := range first[a:] {
+			out = append(out, concScenario([]op{ops[i], ops[j]}, 0, true, []int{0, 1, -1}))
+		}
+	}
+	out = append(out, concScenario([]op{ops[0], ops[0], ops[11]}, 0, true, []int{0, 1, 2}))
 	if tier == "thorough" {
 		for i := range ops {
 			for j := i; j < len(ops); j++ {
